@@ -52,3 +52,14 @@ CLAIMED['C09'] = dict(
     note=('Sound relative to the sink table (sa/calls.py) and the one-abstract-argument-at-a-time argument abstraction; '
           'utility functions of utils/text.py are summarised per call signature. Does not decide the bytes written (C02).'),
     technique='typestate (validate-before-effect) over path-sensitive abstract interpretation + finite relation comparison + who-may-call query')
+
+CLAIMED['C20'] = dict(
+    category='other',
+    text=('Rule-table analysis of the RegexLexer: tokens table extracted symbolically; on each regex AST: group coverage of '
+          'bygroups rules (every consuming item in exactly one capture), arity, progress (min width >= 1), state/include '
+          'resolution, header exhaustiveness over the 9 ids and the end-of-section lookahead (DFA membership of writer '
+          'header forms), content-group language includes every non-empty text without "#.", single header token type, '
+          'fallback rule, setup.py entry point. With the trusted driver loop: lossless + terminating + headers tagged.'),
+    note=('Trusted: pygments RegexLexer driver loop, bygroups/using/include, and that JsonLexer/DiffLexer are lossless. '
+          'Absence of Error tokens from those third-party sub-lexers is not decided.'),
+    technique='custom lint over the regex ASTs of the lexer rule table + DFA inclusion checks')
